@@ -239,3 +239,42 @@ def ambiguous_long_rules(rng):
         R.append((A, (T(ts[i % len(ts)]),)))
     used_t = sorted({x for (_, r) in R for (k, x) in r if k == 'T'})
     return cf.make(vs, used_t, R, 'S')
+
+
+def terminal_renaming(rng, RG, pool=None):
+    """the same grammar over other terminal symbols: digits / punctuation, for which str.upper() is the identity
+    (the terminal-isolating phase derives its variable names from the terminals)"""
+    pool = pool or rng.choice(['01', '012', '#$', '0#', '1a', '_0'])
+    ts = list(RG[1])
+    if len(ts) > len(pool):
+        pool = pool + ''.join(c for c in 'abcdefgh' if c not in pool)
+    mp = dict(zip(ts, pool))
+    R = tuple((A, tuple((k, mp[x]) if k == 'T' else (k, x) for (k, x) in rhs)) for (A, rhs) in RG[2])
+    return cf.make(RG[0], [mp[t] for t in ts], R, RG[3])
+
+
+def composite_start_name(rng, RG):
+    """the same grammar with a multi-character START variable whose characters are the names of other variables
+    (S0 next to S, AB next to A and B): set(name) / `x in name` on the start variable then mean something else"""
+    others = [v for v in RG[0] if v != RG[3] and len(v) == 1]
+    if not others:
+        return rename_vars(RG, {RG[3]: RG[3] + '0'})
+    a = rng.choice(others)
+    b = rng.choice(others)
+    new = rng.choice([a + '0', a + b, b + a, a + a, a + "1"])
+    if new in RG[0]:
+        new = a + '00'
+    return rename_vars(RG, {RG[3]: new})
+
+
+def cnf_shape_with_inner_epsilon(rng):
+    """every rule has Chomsky-normal-form SHAPE and the start variable is on no right hand side, but a non-start
+    variable has an epsilon rule (so the grammar is not in normal form and words may need that rule)"""
+    nv = rng.randint(2, 5)
+    RG = random_cnf(rng, nv, rng.randint(1, 6), nt=rng.randint(1, 2), start_eps=rng.random() < 0.3)
+    others = [v for v in RG[0] if v != RG[3]]
+    R = list(RG[2])
+    for A in rng.sample(others, rng.randint(1, min(2, len(others)))):
+        if (A, ()) not in R:
+            R.insert(rng.randrange(len(R) + 1), (A, ()))
+    return cf.make(RG[0], RG[1], R, RG[3])
